@@ -692,9 +692,52 @@ func (c *Ctx) poolNil(k int) {
 	c.Emit("nilsearch", J{"n": m, "answers": answers}, J{"results": jsonResults(s)})
 }
 
+// default-sized pools (NewPool(0), NewPool(-1)) under every CPU allowance from 1 up: the pool must have at least one
+// worker, Parallelize must return [f(0..n-1)] and Search n non-nil results - also when the process may use ONE CPU
+func (c *Ctx) poolDefault() {
+	old := runtime.GOMAXPROCS(0)
+	defer runtime.GOMAXPROCS(old)
+	for _, procs := range []int{1, 2, 3, old} {
+		for _, arg := range []int{0, -1} {
+			runtime.GOMAXPROCS(procs)
+			n := 1 + c.Intn(6)
+			base := c.Intn(1000)
+			type out struct {
+				par    []interface{}
+				search []interface{}
+			}
+			done := make(chan out, 1)
+			go func() {
+				p := pool.NewPool(arg)
+				defer p.TearDown()
+				var o out
+				o.par = p.Parallelize(n, func(i int) interface{} { return base + i })
+				var ctr int64
+				o.search = p.Search(n, func() interface{} { return int(atomic.AddInt64(&ctr, 1)) })
+				done <- o
+			}()
+			in := J{"procs": procs, "arg": arg, "n": n, "base": base}
+			select {
+			case o := <-done:
+				nonnil := 0
+				for _, x := range o.search {
+					if x != nil {
+						nonnil++
+					}
+				}
+				c.Emit("defaultpool", in, J{"returned": true, "results": jsonResults(o.par), "searchLen": len(o.search), "searchNonNil": nonnil})
+			case <-time.After(5 * time.Second):
+				c.Emit("defaultpool", in, J{"outcome": "HANG", "detail": "a default-sized pool did not finish Parallelize + Search within 5 s"})
+			}
+		}
+	}
+}
+
 func init() {
 	register("pool", func(c *Ctx) {
 		thorough := c.Tier == "thorough"
+		// 0. default-sized pools
+		c.poolDefault()
 		// 1. nil pool
 		for k := 0; k < 40; k++ {
 			c.poolNil(k)
